@@ -104,9 +104,9 @@ section Pratt
 open P
 
 /-- PRECEDENCE AND ASSOCIATIVITY, FOR EVERY EXPRESSION TREE. Take any tree over atoms (identifiers, integer,
-    string and boolean literals) and registered binary operators; print it with the minimal parentheses that the
+    string and boolean literals), registered binary operators and prefix operators (`!`, `-`); print it with the minimal parentheses that the
     precedence table and LEFT associativity require (left operand at the operator's level, right operand one level
-    tighter); put the tokens anywhere in a token array, followed by a token of lowest binding power. Then
+    tighter, the operand of a prefix operator tighter than every binary operator); put the tokens anywhere in a token array, followed by a token of lowest binding power. Then
     `parseExpression` at the lowest precedence returns exactly that tree, leaves the cursor on the expression's last
     token and changes nothing else. Since the grouping of the printed form is unique, the parser's grouping IS the
     documented one: tighter operators first, equal levels left to right, `&&`/`||` on one level (table `C06_table`). -/
@@ -143,6 +143,21 @@ theorem C06_print_tighter_right (o1 o2 lp rp a b c : Token) (xa xb xc : Expr) (h
   simp [pr, h1, h2]
 
 
+
+/-- a prefix operator binds tighter than every binary operator: `! a == b` is `(!a) == b` … -/
+theorem C06_print_prefix_binds_tighter (o1 o2 lp rp a b : Token) (xa xb : Expr)
+    (h2 : lookupLast o2.type Gen.infixFns = some .parseInfixExpression) (hl : Gen.LOWEST < precOf o2.type) :
+    pr (Gen.LOWEST + 1) (.bin o2 lp rp (.pre o1 (.atom a xa)) (.atom b xb)) = [o1, a, o2, b] := by
+  have h1 : ¬ precOf o2.type < Gen.LOWEST + 1 := by omega
+  simp [pr, h1]
+
+/-- … while negating the comparison needs parentheses: `! (a == b)` -/
+theorem C06_print_prefix_of_binary (o1 o2 lp rp a b : Token) (xa xb : Expr)
+    (h2 : lookupLast o2.type Gen.infixFns = some .parseInfixExpression) :
+    pr (Gen.LOWEST + 1) (.pre o1 (.bin o2 lp rp (.atom a xa) (.atom b xb))) = [o1, lp, a, o2, b, rp] := by
+  have := infix_prec_le h2
+  have h1 : precOf o2.type < Gen.PREFIX + 1 := by omega
+  simp [pr, h1]
 
 /-! non-vacuity: `1 - 2 - 3 %>` meets every hypothesis of the round trip and parses as `(1 - 2) - 3` -/
 def tI (n : UInt8) : Token := { type := .INT, lit := [n], line := 1 }
